@@ -197,7 +197,7 @@ func buildDV(sp dvSpec, entry int64, chains []int64) dvBuilt {
 		panic(err)
 	}
 	valsetOK := true
-	if sp.Mut == "valset_wrongkey" {
+	if sp.Mut == "valset_wrongkey" && sp.Arg != sp.Key {
 		valsetOK = false
 		wrong, err := cryptocodec.ToCmtProtoPublicKey(privOf(sp.Arg).PubKey())
 		if err != nil {
